@@ -142,6 +142,17 @@ fn block(b: &Block, v: &Variant, after_para: bool) -> Vec<String> {
                 body.split('\n').map(|l| if l.is_empty() { String::new() } else { format!("    {}", l) }).collect()
             } else {
                 let f = if v.fence.is_empty() { "```" } else { v.fence };
+                // a body that contains a fence line needs a longer fence around it
+                let c = f.chars().next().unwrap();
+                let longest = body
+                    .split('\n')
+                    .map(|l| l.trim_start())
+                    .filter(|l| l.starts_with(f))
+                    .map(|l| l.chars().take_while(|x| *x == c).count())
+                    .max()
+                    .unwrap_or(0);
+                let f = if longest >= f.len() { c.to_string().repeat(longest + 1) } else { f.to_string() };
+                let f = f.as_str();
                 let mut l = vec![format!("{}{}", f, b.x)];
                 if !body.is_empty() {
                     l.extend(body.split('\n').map(|s| s.to_string()));
